@@ -26,6 +26,7 @@ from pyvc.core import And, Iff, Implies, Not, Or, PyExc, SAny, SBool, cur, py_eq
 from pyvc.heap import DictObj, Obj
 from pyvc.interp import OtherException
 from pyvc.spec import Contract
+from contracts.util import fld, fld0
 
 DECLARED = ["k0", "k1", "k2"]
 FOREIGN = ["x0", "x1"]
@@ -273,3 +274,122 @@ class ContainerTwins(Contract):
 
 
 CONTRACTS = [ContainerTwins]
+
+
+# ---------------------------------------------------------------------------------------
+# regex columns: which components are validated (polars)
+# ---------------------------------------------------------------------------------------
+
+
+class PolarsRegexComponentSelection(Contract):
+    """collect_column_info -> collect_schema_components (their live bodies, composed as validate composes them) for a schema that
+    declares a REGEX column under the key it was written with (`{"m_\\d+": Column(..., regex=True)}`; polars matches with the
+    anchored `selector` "^m_\\d+$", the same text only if the user anchored the key) next to a plain column:
+
+        post.a_matched_regex_column_is_validated       required or not: frame columns that match are checked (as on pandas)
+        post.an_unmatched_optional_regex_column_is_skipped
+        post.plain_columns_as_documented                required or present, and not reported absent
+    for key written anchored / unanchored, required symbolic, the pattern matching a frame column or none."""
+
+    target = "pandera.backends.polars.container:DataFrameSchemaBackend.collect_column_info"
+    check_frame = False
+    split = {"key": ["unanchored", "anchored"], "frame": ["matching_column", "no_match"]}
+
+    def setup(self, I):
+        import pandera.api.polars.utils as PU
+        import pandera.backends.polars.container as PC
+        from contracts.C05_polars_components import install_polars_engine_dtype
+
+        install_polars_engine_dtype(I)
+        names = lambda I_, lf: list(lf.names)  # noqa: E731
+        I.models[id(PU.get_lazyframe_column_names)] = names
+        I.models[id(PC.get_lazyframe_column_names)] = names
+        matched = self.fixed.get("frame", "matching_column") == "matching_column"
+
+        class RegexBackend:
+            __pyvc_symbolic__ = True
+
+            def get_regex_columns(self, schema, check_obj):
+                # ColumnBackend.get_regex_columns (its own contract): the frame columns the selector matches; SchemaError when none does
+                if not matched:
+                    raise PyExc(cur().ghost["interp"].make_exc(SchemaError))
+                return ["m_1"]
+
+        cur_backend = RegexBackend()
+        from pandera.api.base.schema import BaseSchema
+
+        I.models[id(BaseSchema.get_backend.__func__)] = lambda I_, cls_or_self, *a, **k: cur_backend
+
+    def make_args(self):
+        from pandera.api.polars.components import Column as PlColumn
+        from pandera.backends.polars.container import DataFrameSchemaBackend as B
+        from contracts.C05_polars_components import NamesFrame, pl_column_ref
+
+        anchored = self.fixed.get("key", "unanchored") == "anchored"
+        key = r"^m_\d+$" if anchored else r"m_\d+"
+        cols = DictObj()
+        rx = pl_column_ref(regex=T.Const(True), name=T.Const(key), selector=T.Const(r"^m_\d+$")).fresh("schema.columns[regex]")
+        plain = pl_column_ref(regex=T.Const(False), name=T.Const("x"), selector=T.Const("x")).fresh("schema.columns[x]")
+        dict.__setitem__(cols, key, rx)
+        dict.__setitem__(cols, "x", plain)
+        cols.pre = True
+        schema = T.Ref(None).fresh("schema")
+        for a, v in (("columns", cols), ("dtype", None)):
+            schema.attrs[a] = v
+            schema.attrs0[a] = v
+        present = (["m_1"] if self.fixed.get("frame", "matching_column") == "matching_column" else []) + ["x"]
+        cur().ghost.update(key=key, rx=rx, plain=plain)
+        return {"self": T.Ref(B).fresh("self"), "check_obj": NamesFrame(present), "schema": schema}
+
+    def call_target(self, I, fn, a):
+        from pandera.backends.polars.container import DataFrameSchemaBackend as B
+
+        info = I.call(fn, [a["self"], a["check_obj"], a["schema"]], {})
+        comps = I.call(B.collect_schema_components, [a["self"], a["check_obj"], a["schema"], info], {})
+        return (info, comps)
+
+    def ensures(self, result, old, self_, check_obj, schema):
+        g = cur().ghost
+        info, comps = result
+        names = [fld(c, "name") for c in comps]
+        matched = self.fixed.get("frame", "matching_column") == "matching_column"
+        req = fld0(g["rx"], "required")
+        req = bool(cur().decide(req, "required[regex]")) if not isinstance(req, bool) else req
+        out = {"plain_columns_as_documented": "x" in names}
+        if matched:
+            out["a_matched_regex_column_is_validated"] = g["key"] in names
+        elif not req:
+            out["an_unmatched_optional_regex_column_is_skipped"] = g["key"] not in names
+        else:
+            out["an_unmatched_required_regex_column_is_validated_and_reports_it"] = g["key"] in names
+        return out
+
+    def concretize(self, rec):
+        def thunk():
+            """an optional regex column whose key is written without anchors: the frame columns it matches are checked, as on pandas"""
+            import warnings
+
+            import pandas as pd
+            import polars as pl
+            import pandera as pa
+            import pandera.polars as pp
+
+            warnings.simplefilter("ignore")
+            obs, bad = {}, False
+            for key in (r"m_\d+", r"^m_\d+$"):
+                for req in (True, False):
+                    v = []
+                    for m, fr in ((pa, pd.DataFrame({"m_1": [-1], "x": [1]})), (pp, pl.DataFrame({"m_1": [-1], "x": [1]}))):
+                        try:
+                            m.DataFrameSchema({key: m.Column(int, pa.Check.gt(0), regex=True, required=req)}).validate(fr, lazy=True)
+                            v.append("accepts")
+                        except pa.errors.SchemaErrors:
+                            v.append("rejects")
+                    obs[f"{key!r} required={req}"] = {"pandas": v[0], "polars": v[1]}
+                    bad = bad or v != ["rejects", "rejects"]
+            return bad, obs
+
+        return thunk
+
+
+CONTRACTS = CONTRACTS + [PolarsRegexComponentSelection]
